@@ -70,6 +70,14 @@ def gen_cases(tier, rng, samples, files):
         for s in subsets:
             for o in ("raw", "default"):
                 cases.append("relabel file=%s types=%s opts=%s" % (f, ",".join(map(str, s)), o))
+        # histories between load and save: named blocks renamed through the API (new strings must be appended, every
+        # old string keeps its index), and the save made through a copy of the NifFile object
+        for s in subsets[:6 if tier == "quick" else 40]:
+            ren = ";".join("S%%%d=%s" % (rng.randrange(0, 400), ("renamed%d" % i).encode().hex()) for i in range(rng.randint(1, 3)))
+            for o in ("raw", "default"):
+                cases.append("relabel file=%s types=%s opts=%s ops=%s" % (f, ",".join(map(str, s)), o, ren))
+                cases.append("relabel file=%s types=%s opts=%s copy=1" % (f, ",".join(map(str, s)), o))
+            cases.append("relabel file=%s types=%s opts=default ops=%s copy=1" % (f, ",".join(map(str, s)), ren))
     return cases
 
 
@@ -186,7 +194,8 @@ def _run(rep, cov, tier, rng, replay, impl_bin, model_bin, samples, files, outdi
             outp = os.path.join(outdir, "out%d.nif" % j)
             with open(inp, "wb") as o:
                 o.write(inb)
-            lines.append("loadsave in=%s out=%s opts=%s" % (inp, outp, ckv["opts"]))
+            lines.append("loadsave in=%s out=%s opts=%s" % (inp, outp, ckv["opts"])
+                         + (" ops=" + ckv["ops"] if ckv.get("ops") else "") + (" copy=1" if ckv.get("copy") == "1" else ""))
             meta.append((c, inb, outp, inp))
         impl = base.run_parallel(impl_bin, lines, batch=50)
         mlines, mmeta = [], []
